@@ -559,15 +559,18 @@ static void cc1(void) {
     char *incl = opt_include.data[i];
 
     char *path;
+    int next_idx = 0;
     if (file_exists(incl)) {
       path = incl;
     } else {
       path = search_include_paths(incl);
       if (!path)
         error("-include: %s: %s", incl, strerror(errno));
+      next_idx = include_next_idx;
     }
 
     Token *tok2 = must_tokenize_file(path);
+    tok2->file->include_next_idx = next_idx;
     tok = append_tokens(tok, tok2);
   }
 
